@@ -230,7 +230,7 @@ def run(ctx):
     except c10_gen.TranslateError as e:
         ctx.fail('translator cannot read ode.py: %s' % e, {'stage': 'translate', 'error': str(e)}, tags={'stage': 'translate'}, found_input=False)
     proof_ok = lib.stage_proof(ctx, PROP_FILES, ['Check/C10.vo'])
-    n = 120 if quick else 2000
+    n = 120 if quick else 4000
     cases, metas = [], []
     for k in range(n):
         cs = ctx.rng.getrandbits(48)
@@ -250,7 +250,7 @@ def run(ctx):
         metas.append({'desc': {'gen': 'gen_int_case', 'case_seed': cs, 'case': d}, 'tags': {'op': d['scheme']}})
     bad = lib.stage_correspondence(ctx, 'stages', REQ, 'check_C10_full', cases, metas) if proof_ok else []
     if tr is not None:
-        n_side = 160 if quick else 3000
+        n_side = 160 if quick else 9000
         if bad or not proof_ok:
             n_side *= 4
         for k in range(n_side):
